@@ -36,8 +36,10 @@ pub struct C16 {
 }
 
 const COUNTS: [&str; 6] = ["", "2", "10", "4294967295", "4294967296", "99999999999999999999"];
-const NEAR_MISS: [&str; 22] = [
+const NEAR_MISS: [&str; 28] = [
     "h2o", "Xx2", "2H", "H 2O", "H-2", "H(2)", "", "Hx", "H2o", "HHe3x", "C6H12O6z", "He-", "NaCL", "nacl", "H2O)", "H2O2.5", "H_2", "Unobtainium", "Zz", "A1", "He2+", "Hₑ",
+    // a well-formed formula with a plural `s` behind it is not a formula
+    "CO2s", "NaCls", "H2SO4s", "CH4s", "C6H12O6s", "KBrs",
 ];
 const COMPOUNDS: [(&str, &[(&str, i64)]); 6] = [
     ("H2O", &[("H", 2), ("O", 1)]),
@@ -167,7 +169,7 @@ impl Space for C16 {
         Meta {
             id: "C16",
             level: "exploration",
-            rule: "every substance x every property of the registry: output of an amount a (5 rational amounts, written in base units of the input dimensionality) = output*(a/input) exactly; the input of that result = a; a wrong-dimension amount is a Conformance error; `<prop> of (k S)` and `(S / k)` scale by k and 1/k; const properties listed by `k S` scale by k. Formulas: every element symbol x counts {none, 2, 10, 2^32-1, 2^32, 1e20-1}, all ordered pairs of 12 symbols x 3 count patterns, six classic compounds: molar mass = exact count-weighted sum; 22 near-miss strings are not formulas. Plus 5 formulas asked of the bundled database and then, on the same thread, of a small database with other element masses, of that database after a load redefined an element, and of a database without elements. Plus 9 definitions that name a scaled, divided or summed substance (`zz_pair 2 (carbon + oxygen)`, `zz_tank 2 m^3 water`, ...) loaded on top of the bundled database: 9 properties x 4 query forms asked of the name and of the bracketed expression must agree in value and dimensionality. Non-trivial = judged; distinct by query text".into(),
+            rule: "every substance x every property of the registry: output of an amount a (5 rational amounts, written in base units of the input dimensionality) = output*(a/input) exactly; the input of that result = a; a wrong-dimension amount is a Conformance error; `<prop> of (k S)` and `(S / k)` scale by k and 1/k; const properties listed by `k S` scale by k. Formulas: every element symbol x counts {none, 2, 10, 2^32-1, 2^32, 1e20-1}, all ordered pairs of 12 symbols x 3 count patterns, six classic compounds: molar mass = exact count-weighted sum; 28 near-miss strings (six of them formulas with a plural s appended) are not formulas. Plus 5 formulas asked of the bundled database and then, on the same thread, of a small database with other element masses, of that database after a load redefined an element, and of a database without elements. Plus 9 definitions that name a scaled, divided or summed substance (`zz_pair 2 (carbon + oxygen)`, `zz_tank 2 m^3 water`, ...) loaded on top of the bundled database: 9 properties x 4 query forms asked of the name and of the bracketed expression must agree in value and dimensionality. Non-trivial = judged; distinct by query text".into(),
             assumptions: vec![
                 "properties whose input/output names are not unique within the substance are skipped for the name-addressed queries (the statement's own restriction) and counted".into(),
                 "a substance is addressed only by names that do not also resolve as a unit (units win: `hg` is hectogram, not mercury)".into(),
